@@ -58,16 +58,34 @@ class Keys:
         return self.keys[name].public_key()
 
 
+DIGEST_ALGS = ["cose-alg-sha-256", "cose-alg-sha-256", "cose-alg-shake128", "cose-alg-sha-512", "cose-alg-shake256", "cose-alg-sha-384"]
+
+
 def minimal_desc(seq, payload=None, deps=None):
     e = {
-        "suit-authentication-wrapper": {"SuitDigest": {"suit-digest-algorithm-id": "cose-alg-sha-256"}},
+        # the manifest digest algorithm varies with the sequence number: what is signed is the digest element, whatever its algorithm
+        "suit-authentication-wrapper": {"SuitDigest": {"suit-digest-algorithm-id": DIGEST_ALGS[seq % len(DIGEST_ALGS)]}},
         "suit-manifest": {"suit-manifest-version": 1, "suit-manifest-sequence-number": seq, "suit-common": {}},
     }
+    # member order varies: dependencies before or after the plain payloads (a re-embedded dependency keeps its place)
+    if deps and seq % 2:
+        e["suit-integrated-dependencies"] = deps
     if payload:
         e["suit-integrated-payloads"] = payload
-    if deps:
+    if deps and not seq % 2:
         e["suit-integrated-dependencies"] = deps
     return {"SUIT_Envelope_Tagged": e}
+
+
+def _prep_sign(*a):
+    """Preparation steps sign an UNSIGNED tool-created envelope with a matching key and the default action: that is itself the plainest
+    case of the property - a refusal is a violation, not a harness problem."""
+    try:
+        sut.sign_single(*a)
+    except boot.HarnessError:
+        raise
+    except Exception as e:
+        raise Violation(f"signing an unsigned envelope with a matching key (preparation step) failed: {type(e).__name__}: {str(e)[:200]}", "a signed envelope", bucket=f"plain-sign-failed:{type(e).__name__}")
 
 
 def n_blocks(data):
@@ -83,7 +101,7 @@ def table_case(case, acc, ctx, keys):
     state, action, alg, keyfam = case["state"], case["action"], case["alg"], case["keyfam"]
     d = ctx.tmpdir("t")
     try:
-        data = sut.create_mem(minimal_desc(7, payload={"#p": "0011"}))
+        data = sut.create_mem(minimal_desc(7 + CO.ALGS.index(alg) + (3 if case.get("dotted") else 0), payload={"#p": "0011"}))
         inp, out = os.path.join(d, "in.suit"), os.path.join(d, "out.suit")
         old_key = f"{fam_of(alg)}_1"
         if state == "signed-same-key":
@@ -92,7 +110,7 @@ def table_case(case, acc, ctx, keys):
             first = os.path.join(d, "first.suit")
             with open(first, "wb") as fh:
                 fh.write(data)
-            sut.sign_single(first, inp, f"{keyfam}_0", 0x22, alg, keys.dir)
+            _prep_sign(first, inp, f"{keyfam}_0", 0x22, alg, keys.dir)
             with open(inp, "rb") as fh:
                 data = fh.read()
             if n_blocks(data) != 1:
@@ -102,7 +120,7 @@ def table_case(case, acc, ctx, keys):
             first = os.path.join(d, "first.suit")
             with open(first, "wb") as fh:
                 fh.write(data)
-            sut.sign_single(first, inp, old_key, 0x11, alg, keys.dir)
+            _prep_sign(first, inp, old_key, 0x11, alg, keys.dir)
             with open(inp, "rb") as fh:
                 data = fh.read()
             if n_blocks(data) != 1:
@@ -221,7 +239,8 @@ def cfg_s(tree, inherited_alg="eddsa", top=True):
         elif draw(st.integers(0, 5)) == 0:
             c["omit-signing"] = False
         action = "error"
-        if tree["presigned"] or draw(st.integers(0, 3)) == 0:
+        # an already signed node may also rely on the default action (error) - whatever action its ancestors name for themselves
+        if (tree["presigned"] and draw(st.integers(0, 2)) != 0) or draw(st.integers(0, 3)) == 0:
             action = draw(st.sampled_from(["skip", "remove-old", "error"] if tree["presigned"] else ["skip", "remove-old"]))
             c["already-signed-action"] = action
         plan = {"mode": mode, "key": kn, "kid": kid, "alg": alg, "action": action, "deps": {}}
@@ -260,7 +279,7 @@ def build(tree, keys, d, counter):
         a, b = os.path.join(d, f"pre{counter[0]}.suit"), os.path.join(d, f"pre{counter[0]}s.suit")
         with open(a, "wb") as fh:
             fh.write(data)
-        sut.sign_single(a, b, "ed25519_1", 0x77, "eddsa", keys.dir)
+        _prep_sign(a, b, "ed25519_1", 0x77, "eddsa", keys.dir)
         with open(b, "rb") as fh:
             data = fh.read()
     return data
